@@ -178,7 +178,8 @@ class PAbsSeq(object):
     length kind(i) (one of `kinds`) whose j-th component is f_j(i).  Reading the same index twice gives the same
     element; nothing else is assumed about the contents (plus `elem_facts`, the type invariant of an element)."""
 
-    def __init__(self, name, kinds, width, elem_facts=None):
+    def __init__(self, name, kinds, width, elem_facts=None, elem=None):
+        self.elem = elem            # optional: elem(i_term, kind) -> element value (default: tuple of ints f_j(i))
         self.name = name
         self.n = z3.FreshConst(z3.IntSort(), name + '_len')
         self.kind = z3.Function(name + '_kind', z3.IntSort(), z3.IntSort())
@@ -762,6 +763,10 @@ class Engine(object):
                 self.cover('%s.raise.%s' % (c.funcname, n))
                 return
         # an exception the contract does not allow: the path must be infeasible
+        if name == 'AttributeError' and exc.tag and getattr(exc, 'unmodelled', False):
+            # the code reads state the contract does not talk about: its result depends on more than the contract's frame
+            self.oblige('%s.frame.reads_unmodelled_state[%s]' % (c.funcname, exc.tag), z3.BoolVal(False), kind='frame')
+            return
         self.oblige('%s.no_%s%s' % (c.funcname, name, ('.' + exc.tag) if exc.tag else ''),
                     z3.BoolVal(False), kind='safety')
 
@@ -1279,7 +1284,7 @@ class Engine(object):
                 if k == seq.kinds[-1] or self.decide(seq.kind(i) == k):
                     if k == seq.kinds[-1]:
                         self.assume(seq.kind(i) == k)
-                    elem = tuple(SInt(seq.f[j](i)) for j in range(k))
+                    elem = seq.elem(i, k) if seq.elem is not None else tuple(SInt(seq.f[j](i)) for j in range(k))
                     if seq.elem_facts is not None:
                         for fact in seq.elem_facts(elem):
                             self.assume(fact)
@@ -1790,6 +1795,8 @@ class Engine(object):
                       'Gt': ta > tb, 'GtE': ta >= tb}[k])
 
     def contains(self, container, x):
+        if isinstance(container, PObj) and isinstance(container.fields.get('__contains__'), PExt):
+            return self.call(container.fields['__contains__'], [x], {}, None)
         if isinstance(container, PMap):
             return SBool(z3.Select(container.dom, term_of(x)))
         if isinstance(container, PList) and isinstance(container.val, list):
@@ -1830,6 +1837,8 @@ class Engine(object):
     def subscript(self, obj, idx, node=None):
         if isinstance(obj, PGen) and getattr(self, 'in_spec', False):
             obj = PList(obj.items) if isinstance(obj.items, list) else obj.items
+        if isinstance(obj, PObj) and isinstance(obj.fields.get('__getitem__'), PExt):
+            return self.call(obj.fields['__getitem__'], [idx], {}, node)
         if isinstance(obj, PText):
             ti = Int.unwrap(idx)
             inb = z3.And(ti >= -obj.n, ti < obj.n)
@@ -1968,6 +1977,9 @@ class Engine(object):
         return val.et.wrap(val.t[i])
 
     def store_subscript(self, obj, idx, v, node=None):
+        if isinstance(obj, PObj) and isinstance(obj.fields.get('__setitem__'), PExt):
+            self.call(obj.fields['__setitem__'], [idx, v], {}, node)
+            return
         if isinstance(obj, PList):
             if isinstance(obj.val, list):
                 if is_sym(idx):
@@ -2053,7 +2065,9 @@ class Engine(object):
                     finally:
                         self.module = saved
                 return a
-            raise PyRaise(PExc(AttributeError, tag=name))
+            ex = PExc(AttributeError, tag=name)
+            ex.unmodelled = True
+            raise PyRaise(ex)
         if isinstance(obj, (PList, PDict, PSet, SStr, SSeq, SInt, PGen, SEnc)):
             return PBound(obj, name)
         if isinstance(obj, PExc):
@@ -2172,6 +2186,8 @@ class Engine(object):
         if hasattr(fn, 'instance') and hasattr(fn, 'statement'):
             ts = [term_of(a) if not isinstance(a, (PList, SSeq, SEnc, PGen)) else self.coerce(a, Seq(Int)) for a in args]
             return SBool(fn.instance(*ts))
+        if isinstance(fn, PObj) and isinstance(fn.fields.get('__call__'), PExt):
+            return self.call(fn.fields['__call__'], args, kwargs, node)
         if isinstance(fn, PFunc):
             return self.call_closure(fn, args, kwargs)
         if isinstance(fn, PBound):
@@ -2585,6 +2601,8 @@ class Engine(object):
         return isinstance(v, cls)
 
     def builtin_next(self, g, node):
+        if isinstance(g, PObj) and isinstance(g.fields.get('__next__'), PExt):
+            return self.call(g.fields['__next__'], [], {}, node)
         if not isinstance(g, PGen):
             raise Unsupported('next() of %r' % (g,))
         if isinstance(g.items, list):
